@@ -480,7 +480,7 @@ impl Profile {
 }
 
 // plain tags, and near-misses of the tags that mean something (exact matches only count)
-const PLAIN_TAGS: &[&str] = &["a", "b", "slow", "wip", "ab", "disallow.skipped", "allow.skipped.on.ci", "serially", "non-serial"];
+const PLAIN_TAGS: &[&str] = &["a", "b", "slow", "wip", "ab", "disallow.skipped", "allow.skipped.on.ci", "serially", "non-serial", "A", "WIP", "Slow", "Serial", "Retry", "Allow.Skipped"];
 /// Retry delays, in microseconds (one of them below a millisecond, one of them zero: no wait, but still a retry setting).
 pub const DELAYS_US: &[u64] = &[0, 900, 2_000, 5_000, 12_000];
 
